@@ -15,7 +15,7 @@ Not decided: compressed bodies decompress to the original (library), value encod
 """
 from ..inline import inline_view
 from ..mir import AnchorLost
-from ..util import dj_of, df_of, operand_path, path_last, fn_short, in_set
+from ..util import enum_variant_of_operand, backward_slice, truth_edges, dj_of, df_of, operand_path, path_last, fn_short, in_set
 
 REQ = "scylla_cql::frame::request::"
 TYPES = "scylla_cql::frame::types::"
@@ -597,9 +597,63 @@ def _derives_from_len(b, df, op, depth=0):
     return None
 
 
+def r7(ctx, facts):
+    r = ctx.rule("R7", "frames are compressed only with what STARTUP negotiated: an unsupported algorithm is dropped from the connection's config", floor=2)
+    bs = facts.find(r"^scylla::network::connection::open_connection::\{closure#0\}$") or facts.find(r"^scylla::network::connection::open_connection.*\{closure#0\}$")
+    if len(bs) != 1:
+        raise AnchorLost("open_connection future not found (%d)" % len(bs))
+    b = bs[0]
+    df = df_of(b, facts)
+    dj = dj_of(b, facts)
+    ins = []
+    for c in b.calls_to("HashMap::<K, V, S>::insert", "HashMap::<K, V, S, A>::insert"):
+        txt = str(c.args) + "".join(str(d[3]) for a in c.args if a[0] in ("c", "m") for l in backward_slice(b, a)[0] for d in b.defs.get(l, []) if d[0] == "stmt")
+        if "options::COMPRESSION" in txt:
+            ins.append(c)
+    starts = b.calls_to("Connection::startup")
+    if not ins or not starts:
+        raise AnchorLost("open_connection: COMPRESSION option insert / startup call not found (%d/%d)" % (len(ins), len(starts)))
+    resets = []
+    for bb in b.live_blocks:
+        for st in b.stmts(bb):
+            if st[0] == "A" and st[1][1] and path_last_local(df, st[1]) == "compression":
+                is_none = (st[2][0] == "agg" and st[2][1][0] == "adt" and st[2][1][2] == "None") or (st[2][0] == "use" and enum_variant_of_operand(b, st[2][1]) == "None")
+                if is_none:
+                    resets.append(bb)
+    gates = []
+    for bb in b.live_blocks:
+        t = b.term(bb)
+        if t[0] != "switch":
+            continue
+        e = df.expr_of_operand(t[1])
+        flip = False
+        while e[0] == "not":
+            e, flip = e[1], not flip
+        if e[0] != "call":
+            continue
+        for sw, tt, ff in truth_edges(b, df, e):
+            if ins[0].bb in b.reachable_from(tt) and ins[0].bb not in b.reachable_from(ff):
+                gates.append((sw, tt, ff))
+    gates = sorted(set(gates))
+    r.instance("compression-requested-only-if-supported", bool(gates), "the COMPRESSION startup option must be inserted only where the server listed the algorithm", ins[0].span)
+    ok = bool(gates)
+    for sw, tt, ff in gates:
+        # the innermost gate only: its false side must not be the "compression not configured" side
+        if any(r2 in b.reachable_from(ff) for r2 in resets) or not resets:
+            if starts[0].bb in dj.feasible_reach_edge(sw, ff, removed_nodes=resets):
+                ok = False
+    r.instance("unsupported-algorithm-is-forgotten", ok and bool(resets),
+               "when the requested compression is not supported, connection.config.compression must be set to None before STARTUP: otherwise every later frame is compressed although STARTUP negotiated none", starts[0].span)
+
+
+def path_last_local(df, place):
+    p = df.canon.path(place)
+    return p[1][-1] if p and p[1] else None
+
+
 def check(ctx):
     facts = inline_view(ctx.facts("default"))
-    for fn in (r1_r2, r6, r4, r5):
+    for fn in (r1_r2, r6, r4, r5, r7):
         try:
             fn(ctx, facts)
         except AnchorLost as ex:
